@@ -601,6 +601,10 @@ func gen(stream string, seed uint64, n int, out string) {
 		genRds(seed, n, out)
 		return
 	}
+	if stream == "gw" {
+		genGw(seed, n, out)
+		return
+	}
 	root := wire.NewRng(seed*1000003 + uint64(len(stream)))
 	o := wire.Create(out)
 	defer o.Close()
@@ -660,11 +664,13 @@ func gen(stream string, seed uint64, n int, out string) {
 			p    proxyCfg
 			port int
 			reqs []request
+			tls  bool
 		}
 		var runs []run
 		np := 1 + r.Intn(2)
 		for k := 0; k < np; k++ {
-			ru := run{p: genProxy(r), port: wire.Pick(r, ports)}
+			ru := run{p: genProxy(r), port: wire.Pick(r, append(ports, 443))}
+			ru.tls = len(ru.p.gws) > 0 && ru.p.gws[0] != "mesh" && r.Chance(1, 2) // a gateway server terminating TLS
 			if stream == "requests" {
 				ru.reqs = synthRequests(r, s.vs, 6+r.Intn(6))
 			} else if r.Chance(1, 2) {
@@ -676,6 +682,7 @@ func gen(stream string, seed uint64, n int, out string) {
 		}
 		for _, ru := range runs {
 			o.Line("proxy", wire.Enc(ru.p.ns), encPairs(ru.p.labels), wire.EncList(ru.p.gws))
+			o.Line("tls", wire.B(ru.tls))
 			o.Line("build", strconv.Itoa(ru.port))
 			for _, q := range ru.reqs {
 				emitReq(o, q, s.vs)
@@ -702,6 +709,10 @@ func oracle(stream, in, out string) {
 	}
 	if stream == "rds" {
 		oracleRds(in, out)
+		return
+	}
+	if stream == "gw" {
+		oracleGw(in, out)
 		return
 	}
 	lines := wire.ReadLines(in)
